@@ -232,6 +232,10 @@ fn interface_name<'a>(input: &mut &'a [u8]) -> ModalResult<&'a str, InputError<&
     while pos < input.len() && (input[pos].is_ascii_alphanumeric() || input[pos] == b'-') {
         pos += 1;
     }
+    // A segment cannot end with a dash.
+    if input[pos - 1] == b'-' {
+        return Err(ErrMode::Backtrack(ParserError::from_input(input)));
+    }
 
     let mut found_dot = false;
     // Subsequent segments: .[A-Za-z0-9]([-]*[A-Za-z0-9])*
@@ -241,13 +245,16 @@ fn interface_name<'a>(input: &mut &'a [u8]) -> ModalResult<&'a str, InputError<&
 
         // Must have at least one alphanumeric after dot
         if pos >= input.len() || !input[pos].is_ascii_alphanumeric() {
-            break;
+            return Err(ErrMode::Backtrack(ParserError::from_input(input)));
         }
         pos += 1;
 
         // Continue with alphanumeric and dashes
         while pos < input.len() && (input[pos].is_ascii_alphanumeric() || input[pos] == b'-') {
             pos += 1;
+        }
+        if input[pos - 1] == b'-' {
+            return Err(ErrMode::Backtrack(ParserError::from_input(input)));
         }
     }
 
